@@ -43,6 +43,7 @@ type Check struct {
 	start    time.Time
 	extra    map[string]any
 	keys     map[string]int
+	variant  string // suffix for obligations of a second build variant
 }
 
 func NewCheck(id, tier, verifDir string, P *Program) *Check {
@@ -61,7 +62,7 @@ func (c *Check) Rule(id, text string, floor int) {
 }
 
 func (c *Check) add(rule, construct, where, status, why string) {
-	key := rule + "/" + construct
+	key := rule + "/" + construct + c.variant
 	c.keys[key]++
 	if n := c.keys[key]; n > 1 {
 		key = key + "#" + strconv.Itoa(n)
@@ -142,7 +143,7 @@ func (c *Check) Finish() int {
 		if o.Status != "violated" {
 			continue
 		}
-		if k, ok := kmap[o.Key]; ok {
+		if k, ok := kmap[strings.TrimSuffix(o.Key, "@boringcrypto")]; ok {
 			o.Status = "known-finding"
 			knownHit = append(knownHit, o)
 			fmt.Printf("KNOWN-FINDING: property=%s %s — %s (%s)\n", c.ID, o.Key, k.What, o.Where)
